@@ -328,7 +328,18 @@ WORLDS = {"dict-ts": TsDictWorld, "choice-fs": ChoiceFsWorld, "dict": DictWorld,
 # cfg: (nk_set, auto_reload, capacity, env_g)
 
 
-def _observe(env, probe, req):
+def _describe(t):
+    """What a template object says of itself now: name, where its text came from, its globals."""
+    out = t.render()
+    parts = out.split("|")
+    if len(parts) != 5:
+        return ("t", t.name, out, None, None, None, None, None)
+    gl = dict(t.globals)
+    return ("t", t.name, parts[0], None if parts[1] == "-" else parts[1], int(parts[2][1:]),
+            parts[3], parts[4], (gl.get("e", 0), gl.get("g", 0)))
+
+
+def _observe(env, probe, req, keep=None):
     from liquid import RenderContext
 
     _, mode, name, kw, ctx, g = req
@@ -339,42 +350,84 @@ def _observe(env, probe, req):
     if ctx is not None:
         context = RenderContext(probe, globals=({NSKEY: ctx} if ctx else {}))
     globs = {"g": g} if g else None
+    keep_len = len(keep) if keep is not None else 0
     try:
         if mode == "a":
             t = run_async(env.get_template_async(name, globals=globs, context=context, **kwargs))
         else:
             t = env.get_template(name, globals=globs, context=context, **kwargs)
-        out = t.render()
-        parts = out.split("|")
-        if len(parts) != 5:
-            return ("t", t.name, out, None, None, None, None, None)
-        gl = dict(t.globals)
-        return ("t", t.name, parts[0], None if parts[1] == "-" else parts[1], int(parts[2][1:]),
-                parts[3], parts[4], (gl.get("e", 0), gl.get("g", 0)))
+        if keep is not None:
+            keep.append(t)
+        return _describe(t)
     except Exception as e:  # noqa: BLE001
+        if keep is not None and len(keep) < keep_len + 1:
+            keep.append(None)
         return ("err", classify_exc(e))
 
 
-def run_history(world, cfg, reqs):
+def run_history(world, cfg, reqs, again=None):
     """-> (observations of the caching loader, observations of a fresh non-caching loader per request,
-    for each request whether the source it reads was deleted at that moment)."""
+    for each request whether the source it reads was deleted at that moment).  If `again` is a list it receives,
+    per request, what the template object returned to that request says of itself when the history is over."""
     nk_set, auto_reload, capacity, env_g = cfg
     cenv, cprobe, fenv, fprobe = _envs(env_g)
     world.restore()
     cenv.loader = world.caching(NSKEY if nk_set else "", auto_reload, capacity)  # one caching loader per history
-    got, want, gone = [], [], []
+    got, want, gone, kept = [], [], [], []
     for r in reqs:
         if r[0] in ("edit", "delete"):
             (world.edit if r[0] == "edit" else world.delete)(r[1], r[2])
             got.append(("done",))
             want.append(("done",))
             gone.append(False)
+            kept.append(None)
             continue
-        got.append(_observe(cenv, cprobe, r))
+        got.append(_observe(cenv, cprobe, r, kept))
         fenv.loader = world.plain()  # a fresh non-caching loader per request
         want.append(_observe(fenv, fprobe, r))
         gone.append(world.source_key(r) if world.source_key(r) in world.gone else False)
+    if again is not None:
+        for o, t in zip(got, kept):
+            if t is None or o[0] != "t":
+                again.append(o)
+                continue
+            try:
+                again.append(_describe(t))
+            except Exception as e:  # noqa: BLE001
+                again.append(("err", classify_exc(e)))
     return got, want, gone
+
+
+def first_changed(got, again):
+    """Index of the first response that is no longer what it was when it was returned."""
+    for i, (g, a) in enumerate(zip(got, again)):
+        if g != a:
+            return i
+    return None
+
+
+def shrink_changed(world, cfg, reqs, i):
+    """Shortest prefix after request i that still changes its response, then greedy removal of other requests."""
+    for end in range(i + 2, len(reqs) + 1):
+        again = []
+        got, _w, _g = run_history(world, cfg, reqs[:end], again)
+        if got[i] != again[i]:
+            reqs = list(reqs[:end])
+            break
+    j = 0
+    while j < len(reqs):
+        if j == i:
+            j += 1
+            continue
+        cand = reqs[:j] + reqs[j + 1:]
+        ci = i - 1 if j < i else i
+        again = []
+        got, _w, _g = run_history(world, cfg, cand, again)
+        if ci < len(got) and got[ci] != again[ci]:
+            reqs, i, j = cand, ci, 0
+        else:
+            j += 1
+    return reqs, i
 
 
 _ENVS: dict = {}
@@ -595,7 +648,8 @@ def run(ck: Check) -> None:
         "Exhaustive: every word of the stated length over four request alphabets (namespaces: 10 symbols, globals: 8, context: 13, "
         "lifecycle = gets plus edit/delete of both names: 8); also a CachingChoiceLoader over two FileSystemLoaders and the mixin "
         "with thread_safe=True (ThreadSafeLRUCache, single-threaded); "
-        "random: lengths 1..12 over everything. Each request is also served by a fresh non-caching loader (oracle). "
+        "random: lengths 1..12 over everything. Each request is also served by a fresh non-caching loader (oracle), and every template object "
+        "handed out is observed again at the end of its history (it must still say what it said when it was returned). "
         "Non-trivial = some cache key is requested at least twice; distinct = distinct (loader, configuration, history)."
     )
     ck.exhaustive = True
@@ -632,7 +686,8 @@ def run(ck: Check) -> None:
         world.restore()
         base = dict(world.versions)
         entries = [(k, 0) for k, _ in world.entries()]
-        got, want, gone = run_history(world, cfg, reqs)
+        again = []
+        got, want, gone = run_history(world, cfg, reqs, again)
         keys = [(r[2], r[3] if r[3] is not None else (r[4] or None)) for r in reqs if r[0] == "get"]
         ck.note_case((world.kind, cfg, reqs), nontrivial=len(set(keys)) < len(keys))
         ck.count(f"{world.kind}.{uni}.len{len(reqs)}")
@@ -654,9 +709,26 @@ def run(ck: Check) -> None:
                     f"{small[:-1]} the request {small[-1]} returns {g2[-1]} where a non-caching loader returns {w2[-1]} ({kind})",
                     {"type": "history", "world": world.kind, "cfg": list(cfg), "requests": [list(r) for r in small],
                      "caching": g2, "non_caching": w2, "kind": kind})
+        ch = first_changed(got, again)
+        if ch is not None:
+            explained = True
+            sig = "c23:earlier-response-changed:" + signature("x", reqs[ch]).split(":", 2)[2]
+            if sig not in seen_sig and nviol < 30:
+                seen_sig.add(sig)
+                nviol += 1
+                small, si = shrink_changed(world, cfg, reqs, ch)
+                a2 = []
+                g2, _w2, _ = run_history(world, cfg, small, a2)
+                ck.violation(
+                    "impl-violation", sig,
+                    f"{world.kind} loader, namespace_key={'uid' if cfg[0] else ''!r} auto_reload={cfg[1]} capacity={cfg[2]}: the template "
+                    f"returned to request #{si} of {small} said {g2[si]} when it was returned and says {a2[si]} after the later "
+                    f"requests (the cached object is shared and was rebound)",
+                    {"type": "history", "world": world.kind, "cfg": list(cfg), "requests": [list(r) for r in small],
+                     "caching": g2, "again": a2, "kind": "earlier-response-changed"})
         cases.append(f"{{| c_cfg := {I_cfg(g_cfg(world, cfg), 'config')}; c_store := {I_store(g_store(entries), 'store')}; "
                      f"c_reqs := {g_list(I_req(g_req(r), 'request') for r in reqs)} |}}")
-        expected.append(g_list(I_resp(g_resp(o, base), 'response') for o in got))
+        expected.append(g_list(I_resp(g_resp(o, base), 'response') for o in got + again))
         meta.append((world.kind, cfg, reqs, entries, got, explained))
 
     for kind, uni, cfgs, length, nrand in the_plan:
@@ -735,7 +807,7 @@ def replay(data) -> int:
             print(v[2])
         print(("VIOLATION reproduced" if ck.v else "not reproduced") + f" property={data['property']}")
         return 1 if ck.v else 0
-    if case.get("type") != "history" or "non_caching" not in case and "impl" not in case:
+    if case.get("type") != "history" or ("non_caching" not in case and "impl" not in case and "again" not in case):
         print("replay names a proof/correspondence obligation:", case)
         return 1
     import shutil
@@ -749,10 +821,14 @@ def replay(data) -> int:
         world = WORLDS[case["world"]](tmp)
         cfg = tuple(case["cfg"])
         reqs = [tuple(r) for r in case["requests"]]
-        got, want, gone = run_history(world, cfg, reqs)
-        for r, g, w in zip(reqs, got, want):
-            print(r, "\n   caching    :", g, "\n   non-caching:", w)
+        again = []
+        got, want, gone = run_history(world, cfg, reqs, again)
+        for r, g, w, a in zip(reqs, got, want, again):
+            print(r, "\n   caching    :", g, "\n   non-caching:", w, *(("\n   at the end :", a) if a != g else ()))
         fb = first_bad(got, want, cfg[1], gone)
+        ch = first_changed(got, again)
+        if fb is None and ch is not None:
+            fb = (ch, "earlier-response-changed")
         print(("VIOLATION reproduced" if fb else "not reproduced") + f" property={data['property']}"
               + (f" ({fb[1]} at request {fb[0]})" if fb else ""))
         return 1 if fb else 0
